@@ -312,3 +312,93 @@ type ires =
 val getitem :
   ('a1 -> 'a1 -> bool) -> (ctype -> 'a1) -> ctype list list -> 'a1 list ->
   ires
+
+type pkind =
+| KPosOnly
+| KPosKw
+| KKwOnly
+
+val is_kwonly : pkind -> bool
+
+val is_posonly : pkind -> bool
+
+type plan = { pl_ft : nat; pl_idx : nat; pl_name : nat; pl_kind : pkind;
+              pl_def : nat option }
+
+type 'v param = { p_name : nat; p_kind : pkind; p_fused : nat option;
+                  p_default : 'v option }
+
+type 'v fsig = { s_params : 'v param list; s_star : bool; s_kw : bool }
+
+val has_default : 'a1 param -> bool
+
+val defaults_tuple : 'a1 param list -> 'a1 list
+
+val plans_from : bool -> 'a1 param list -> nat -> nat -> nat list -> plan list
+
+val plans : bool -> 'a1 fsig -> plan list
+
+val lookup : nat -> (nat * 'a1) list -> 'a1 option
+
+type 'v fetched =
+| FVal of 'v
+| FMissing
+| FBadIndex
+
+val run_plan :
+  bool -> plan -> 'a1 list -> (nat * 'a1) list -> 'a1 list -> 'a1 fetched
+
+type 'v fres =
+| Fetched of 'v list
+| FetchMissing
+| FetchBadIndex
+
+val fetch_all :
+  bool -> plan list -> 'a1 list -> (nat * 'a1) list -> 'a1 list -> 'a1 fres
+
+val positional : 'a1 param -> bool
+
+val npos : 'a1 param list -> nat
+
+val accepts_kw : 'a1 param list -> nat -> bool
+
+val in_kw : nat -> (nat * 'a1) list -> bool
+
+val bind_one : 'a1 list -> (nat * 'a1) list -> nat -> 'a1 param -> 'a1 option
+
+val bind_from :
+  'a1 list -> (nat * 'a1) list -> nat -> 'a1 param list -> 'a1 list option
+
+val bind_py : 'a1 fsig -> 'a1 list -> (nat * 'a1) list -> 'a1 list option
+
+val kinds_sorted : 'a1 param list -> bool
+
+val nodupb : nat list -> bool
+
+val wf_sig : 'a1 fsig -> bool
+
+val hazard_free : plan -> 'a1 list -> (nat * 'a1) list -> bool
+
+val select : ctype list list -> ctype option list -> dres
+
+val fparams : 'a1 param list -> nat list
+
+val fused_vals : ('a1 -> atag) -> 'a1 param list -> 'a1 list -> atag list
+
+val ft_pos : plan list -> nat -> nat
+
+val members_of : ctype list list -> plan -> ctype list
+
+val decl_of : ctype list list -> 'a1 fsig -> decl
+
+val call2_cy :
+  ('a1 -> atag) -> bool -> bool -> bool -> (tclass -> bool) -> ctype list
+  list -> 'a1 fsig -> 'a1 list -> (nat * 'a1) list -> outcome
+
+val doc_call2 :
+  ('a1 -> atag) -> ctype list list -> 'a1 fsig -> 'a1 list -> (nat * 'a1)
+  list -> outcome
+
+val call_index :
+  ('a1 -> atag) -> 'a1 fsig -> ctype list -> 'a1 list -> (nat * 'a1) list ->
+  outcome
